@@ -37,6 +37,16 @@ COLLISIONS = [
     ("preprocessor-define-guards-error", ["#define X\nmodule A\nstruct S {}\n", "module B\n#if X\nstruct Bad { f: NoSuch }\n#endif\n", "module C\ncustom K\n"]),
     ("preprocessor-undef-elsewhere", ["#define Y\n#undef Y\nmodule A\nstruct S {}\n", "#define Y\nmodule B\n#if Y\nstruct Seen {}\n#endif\n", "module C\n#if !Y\nstruct NotY {}\n#endif\n"]),
     ("preprocessor-define-needed-by-reference", ["module A\n#if Z\nstruct Bad { f: NoSuch }\n#else\nstruct Good {}\n#endif\n", "#define Z\nmodule B\nstruct S {}\n"]),
+    # a definition named like a module that is only implied (an enclosing module of a declared one)
+    ("def-vs-implied-module", ["module A\nstruct B { x: bool }\n", "module A::B::C\nstruct D { y: bool }\n", "module Z\nstruct U { b: A::B }\n"]),
+    ("def-vs-implied-module-deep", ["module A::B\nenum C { X }\n", "module A::B::C::D::E\ncustom K\n", "module Z\ncustom Q\n"]),
+    ("alias-vs-implied-module", ["module A\ntypealias B = bool\n", "module A::B::C\nstruct D { y: bool }\n", "module A::B::C\nstruct E { d: D }\n"]),
+    ("interface-vs-implied-module", ["module A\ninterface B { C() }\n", "module A::B::C::D\nstruct S {}\n", "module Z\nstruct U { s: A::B::C::D::S }\n"]),
+    # files that hold no module once preprocessed, in every position
+    ("module-less-file-if", ["#if LEGACY\nmodule L\nstruct Old {}\n#endif\n", "module A\nstruct S { x: bool }\n", "module B\nstruct T { s: A::S }\n"]),
+    ("module-less-file-empty", ["", "module A\nstruct S { x: bool }\n", "module B\nstruct T { s: A::S }\n"]),
+    ("module-less-file-comment", ["// nothing here\n/* at all */\n", "module A\nstruct S { x: bool }\n", "module B\ninterface I { op(s: A::S) }\n"]),
+    ("module-less-files-two", ["", "module A\nstruct S { x: bool }\n", "#if X\nmodule Hidden\n#endif\n", "module B\nstruct T { s: A::S }\n"]),
     ("operation-vs-parameter-scope", ["module A\ninterface I { op(op: bool) -> (op: bool, r: bool) }\n", "module A\n/// {@link I::op}\nstruct L {}\n"]),
 ]
 
